@@ -138,8 +138,21 @@ def esc_letters(ec):
 
 # the standard's escape sequences that do not stand for a delimiter (HL7 v2 chapter 2, "use of escape sequences in text
 # fields"): hexadecimal data, locally defined, single- and multi-byte character set switches, formatting commands
-OTHER_SEQUENCES = re.compile(r'(?:X(?:[0-9A-Fa-f][0-9A-Fa-f])+|Z[0-9A-Za-z]+|C[0-9A-Fa-f]{4}|M[0-9A-Fa-f]{4}(?:[0-9A-Fa-f]{2})?|'
-                             r'\.(?:br|sp|fi|nf|in|ti|sk|ce) ?[+-]?[0-9]*)')
+_HEXLIKE = r'X(?:[0-9A-Fa-f][0-9A-Fa-f])+|Z[0-9A-Za-z]+|C[0-9A-Fa-f]{4}|M[0-9A-Fa-f]{4}(?:[0-9A-Fa-f]{2})?'
+OTHER_SEQUENCES = re.compile(r'(?:%s|\.(?:br|sp|fi|nf|in|ti|sk|ce) ?[+-]?[0-9]*)' % _HEXLIKE)
+
+
+def other_sequences(esc):
+    """the sequences that can be told from text when `esc` is the escape character: those it cannot be part of"""
+    if esc.isalnum():
+        return None
+    if esc not in '.+- ':
+        return OTHER_SEQUENCES
+    pat = _HEXLIKE
+    if esc != '.':
+        signs = ''.join(c for c in '+-' if c != esc)
+        pat += r'|\.(?:br|sp|fi|nf|in|ti|sk|ce)%s[%s]?[0-9]*' % ('' if esc == ' ' else ' ?', re.escape(signs))
+    return re.compile('(?:%s)' % pat)
 
 
 def tokenize_escaped(out, ec, letters=None):
@@ -161,7 +174,8 @@ def tokenize_escaped(out, ec, letters=None):
                 toks.append(out[i:i + 3])
                 i += 3
                 continue
-            m = OTHER_SEQUENCES.match(out, i + 1) if not (esc.isalnum() or esc in '.+- ') else None
+            others = other_sequences(esc)
+            m = others.match(out, i + 1) if others is not None else None
             if m and m.end() < n and out[m.end()] == esc and not any(c in delims or c == esc for c in m.group(0)):
                 toks.append(out[i:m.end() + 1])
                 i = m.end() + 1
